@@ -194,3 +194,80 @@ pub mod verif_kani_c06 {
     #[kani::stub(crate::wrath_header::ClientCrypto::new, new_stub_c)]
     pub fn c06_wrath_world_login_cex() { let ok = body(false); kani::cover!(!ok, "counterexample"); }
 }
+
+// Bounded native search for C10/C11 (counterexample finder; stand-in when a function leaves the verifiable fragment)
+#[cfg(all(test, gtker_wow_srp_verif))]
+mod verif_search {
+    use super::*;
+    struct Rng(u64);
+    impl Rng { fn next(&mut self) -> u64 { self.0 ^= self.0 << 13; self.0 ^= self.0 >> 7; self.0 ^= self.0 << 17; self.0 } }
+    struct Chunky<'a> { data: &'a [u8], pos: usize, fail_at: usize, rng: u64 }
+    impl<'a> std::io::Read for Chunky<'a> {
+        fn read(&mut self, buf: &mut [u8]) -> std::io::Result<usize> {
+            if self.pos >= self.fail_at { return Err(std::io::Error::from(std::io::ErrorKind::TimedOut)); }
+            self.rng ^= self.rng << 13; self.rng ^= self.rng >> 7; self.rng ^= self.rng << 17;
+            if self.rng % 5 == 0 { return Err(std::io::Error::from(std::io::ErrorKind::Interrupted)); }
+            let n = 1 + (self.rng as usize % buf.len().min(self.fail_at - self.pos).min(self.data.len() - self.pos));
+            buf[..n].copy_from_slice(&self.data[self.pos..self.pos + n]); self.pos += n; Ok(n)
+        }
+    }
+    /// mixed sequences of short and long server headers (boundary sizes), decoded through both client paths, with fragmented
+    /// reads and interruptions; then a reader failing at the fifth byte of a long header
+    #[test]
+    fn verif_search_c10_headers() {
+        let seed = std::env::var("VERIF_SEED").ok().and_then(|s| s.parse::<u64>().ok()).unwrap_or(0) ^ 0x9E3779B97F4A7C15;
+        let mut rng = Rng(seed);
+        let sizes = [0u32, 1, 4, 0xFF, 0x100, 0x7FFE, 0x7FFF, 0x8000, 0x8001, 0xFFFF, 0x10000, 0x123456, 0x7FFFFE, 0x7FFFFF];
+        let mut n = 0u64;
+        for round in 0..60 {
+            let mut key = [0u8; 40]; for k in key.iter_mut() { *k = rng.next() as u8; }
+            let mut server = ServerCrypto::new(key);
+            let mut c1 = ClientCrypto::new(key);
+            let mut c2 = ClientCrypto::new(key);
+            let mut wire: Vec<u8> = Vec::new();
+            let mut hdrs = Vec::new();
+            for _ in 0..12 {
+                let size = sizes[(rng.next() % sizes.len() as u64) as usize]; let opcode = rng.next() as u16;
+                let h = server.encrypt_server_header(size, opcode).to_vec();
+                if h.len() != (if size > 0x7FFF { 5 } else { 4 }) { println!("REPLAY-FAIL c10_headers size={:#x} emitted {} bytes", size, h.len()); return; }
+                wire.extend_from_slice(&h); hdrs.push((size, opcode));
+            }
+            // path 1: attempt + one more byte
+            let mut pos = 0;
+            for (size, opcode) in hdrs.iter() {
+                let mut b = [0u8; 4]; b.copy_from_slice(&wire[pos..pos + 4]); pos += 4;
+                let h = match c1.attempt_decrypt_server_header(b) { WrathServerAttempt::Header(h) => h, WrathServerAttempt::AdditionalByteRequired => { pos += 1; c1.decrypt_large_server_header(wire[pos - 1]) } };
+                n += 1;
+                if h.size != *size || h.opcode != *opcode { println!("REPLAY-FAIL c10_headers two-step path: sent size={:#x} opcode={:#x} decoded size={:#x} opcode={:#x} round={}", size, opcode, h.size, h.opcode, round); return; }
+            }
+            if pos != wire.len() { println!("REPLAY-FAIL c10_headers two-step path consumed {} of {} bytes", pos, wire.len()); return; }
+            // path 2: read-based, fragmented + interrupted
+            let mut rd = Chunky { data: &wire, pos: 0, fail_at: wire.len(), rng: rng.next() | 1 };
+            for (size, opcode) in hdrs.iter() {
+                match c2.read_and_decrypt_server_header(&mut rd) {
+                    Ok(h) if h.size == *size && h.opcode == *opcode => {}
+                    other => { println!("REPLAY-FAIL c10_headers read path: sent size={:#x} opcode={:#x} got {:?} round={}", size, opcode, other.map(|h| (h.size, h.opcode)).map_err(|e| e.kind()), round); return; }
+                }
+            }
+            if c1 != c2 { println!("REPLAY-FAIL c10_headers the two client paths end in different states"); return; }
+            // C11: failure at byte offsets 0..=4 of a long header
+            for fail_at in 0..=4usize {
+                let mut s2 = ServerCrypto::new(key); let mut c = ClientCrypto::new(key); let mut twin = ClientCrypto::new(key);
+                let h = s2.encrypt_server_header(0x12345, 0x4242).to_vec();
+                let mut rd = Chunky { data: &h, pos: 0, fail_at, rng: rng.next() | 1 };
+                let r = c.read_and_decrypt_server_header(&mut rd);
+                n += 1;
+                if r.is_ok() { println!("REPLAY-FAIL c11 read succeeded although the reader failed at offset {}", fail_at); return; }
+                if fail_at < 4 { if c != twin { println!("REPLAY-FAIL c11 decrypter changed by a read that failed at offset {}", fail_at); return; } }
+                else {
+                    let mut b = [0u8; 4]; b.copy_from_slice(&h[..4]);
+                    let _ = twin.attempt_decrypt_server_header(b);
+                    if c != twin { println!("REPLAY-FAIL c11 after a failure at the fifth byte the decrypter is not in the state the 4-byte attempt leaves"); return; }
+                    let done = c.decrypt_large_server_header(h[4]);
+                    if done.size != 0x12345 || done.opcode != 0x4242 { println!("REPLAY-FAIL c11 supplying the fifth byte later does not complete the header: size={:#x} opcode={:#x}", done.size, done.opcode); return; }
+                }
+            }
+        }
+        println!("REPLAY-STATS c10_headers inputs={} all-ok", n);
+    }
+}
